@@ -309,6 +309,17 @@ func (c23) Execute(sc *engine.Scenario) *engine.Result {
 		}
 		return first
 	}
+	// with no writer configured nothing the guest sends may show up anywhere: standard error is watched
+	// from the construction of the instance on (the harness itself writes nothing there meanwhile)
+	var stderrEnd func() []byte
+	if !sc.Serial {
+		stderrEnd = captureFile(&os.Stderr)
+		defer func() {
+			if stderrEnd != nil {
+				stderrEnd()
+			}
+		}()
+	}
 	m := build(sc, res)
 	if m == nil {
 		return res
@@ -406,6 +417,13 @@ func (c23) Execute(sc *engine.Scenario) *engine.Result {
 		if len(m.SerialOut) != 0 {
 			res.Fail("C23/delivered-without-writer", m.N, "bytes were delivered although no writer is configured")
 		}
+		if stderrEnd != nil {
+			b := stderrEnd()
+			stderrEnd = nil
+			if len(b) != 0 && res.Violation == nil {
+				res.Fail("C23/stderr-without-writer", uint64(len(b)), "no writer is configured, yet %d bytes appeared on standard error while the guest wrote to SB: %q", len(b), string(b[:min(len(b), 40)]))
+			}
+		}
 		res.Sig("program/nil-writer")
 	}
 	// SB and SC read FF
@@ -426,6 +444,24 @@ func (c23) Execute(sc *engine.Scenario) *engine.Result {
 		res.Digest = uint64(dg)
 	}
 	return res
+}
+
+// captureFile redirects *fp (os.Stdout or os.Stderr) into a scratch file; the returned function ends
+// the redirection and returns what was written.
+func captureFile(fp **os.File) func() []byte {
+	tmp, err := os.CreateTemp(machine.ScratchDir(), "capture-*")
+	if err != nil {
+		panic(err)
+	}
+	saved := *fp
+	*fp = tmp
+	return func() []byte {
+		*fp = saved
+		tmp.Close()
+		b, _ := os.ReadFile(tmp.Name())
+		os.Remove(tmp.Name())
+		return b
+	}
 }
 
 // captureStdout runs f with the process's standard output redirected into a scratch file and returns
